@@ -94,6 +94,15 @@ pub fn check(tape: &[u32]) -> CheckResult {
             }
         }
     }
+    // C19 quantifies over loadable sprites, not only over what the GUI writes: now and then an image layer that
+    // carries cels is declared a group layer
+    if t.chance(1, 10) {
+        let cands: Vec<usize> = (0..s.layers.len()).filter(|l| s.layers[*l].kind == crate::model::LayerKind::Image && s.frames.iter().any(|f| f.cels.iter().any(|c| c.layer as usize == *l && !matches!(c.content, crate::model::CelContent::Link { .. })))).collect();
+        if !cands.is_empty() {
+            let l = cands[t.below(cands.len() as u32) as usize];
+            s.layers[l].kind = crate::model::LayerKind::Group;
+        }
+    }
     let plan = build_plan(&mut t);
     let enc = encode(&s, &plan);
     let detail = || json!({"model": super::c01::summarize(&s), "input_hex": if enc.bytes.len() < 8000 { hex(&enc.bytes) } else { String::new() }});
